@@ -5,6 +5,7 @@
 -/
 import MpirProofs.Lemmas.BinvertMain
 import MpirProofs.Lemmas.BinvertPinned
+import MpirProofs.Lemmas.BinvertBdiv
 namespace Mpir.Binvert
 open Mpir Mpir.Powm Mpir.PowmL Mpir.Mm1 Mpir.Hgcd
 
@@ -153,5 +154,62 @@ theorem mipOf_eq_mpn_binvert (rthr thr dcThr mthr : Nat) (pp1 : List Nat → Lis
 
 example : mpnBinvert 2 6 12 Fft.mulmod_2expp1_basecase (bnm1NextSize 128 19 tab19) (fun _ => 7) [3, 5, 9] [5, 5, 5]
     (List.replicate 238 9) = (toLimbs 3 (binvert (val [3, 5, 9]) 3), true) := by decide +kernel
+
+/-! ## the Hensel divisions under the base case (Mpir/Model/BinvertBdiv.lean, value level) -/
+
+/-- **mpn_dc_bdiv_qr_n** (dc_bdiv_qr_n.c:42-75, the recursion mirrored on values: low ⌊n/2⌋ quotient limbs, the
+    `mpn_mul` correction with the carried borrow `mpn_incr_u`'d in, `mpn_sub` over n + ⌈n/2⌉ limbs, high ⌈n/2⌉ quotient limbs,
+    second correction, `mpn_sub_n`, the two borrows added): for EVERY n ≥ 2, every `N < B^2n`, every odd `D < B^n`, every
+    DC_BDIV_QR_THRESHOLD ≥ 2 (with 0 or 1 the C recursion reaches n = 1, whose low half is empty) and any base case meeting
+    `SbSpec` (the contract of mpn_sb_bdiv_qr):  `Q < B^n`, the n remainder limbs `R < B^n`, the returned borrow is 0 or 1
+    (the sum of the two borrows never reaches 2), `N + rh·B^2n = Q·D + R·B^n` exactly, hence `Q·D ≡ N (mod B^n)`. -/
+theorem dc_bdiv_qr_n_spec (thr : Nat) (hthr : 2 ≤ thr) (sb : Nat → Nat → Nat → Nat × Nat × Nat) (hsb : SbSpec sb)
+    (f N D n : Nat) (hn : 2 ≤ n) (hN : N < B ^ (2 * n)) (hD : D < B ^ n) (hodd : D % 2 = 1) :
+    (dcBdivQrN thr sb f N D n).1 < B ^ n ∧ (dcBdivQrN thr sb f N D n).2.1 < B ^ n ∧ (dcBdivQrN thr sb f N D n).2.2 ≤ 1 ∧
+    N + (dcBdivQrN thr sb f N D n).2.2 * B ^ (2 * n) =
+      (dcBdivQrN thr sb f N D n).1 * D + (dcBdivQrN thr sb f N D n).2.1 * B ^ n ∧
+    ((dcBdivQrN thr sb f N D n).1 * D) % B ^ n = N % B ^ n := by
+  obtain ⟨h1, h2, h3, h4⟩ := dcBdivQrN_spec thr hthr sb hsb f N D n hn hN hD hodd
+  refine ⟨h1, h2, h3, h4, ?_⟩
+  have e : B ^ (2 * n) = B ^ n * B ^ n := by rw [← pow_add]; congr 1; omega
+  have := congrArg (· % B ^ n) h4
+  simp only [e, ← Nat.mul_assoc, Nat.add_mul_mod_self_right] at this
+  exact this.symm
+
+/-- **mpn_dc_bdiv_qr_n over the base case the driver runs** (`sbBdivQrVal`: the unique quotient, remainder limbs and
+    borrow — shown to meet `SbSpec` by `sbSpec_val`, from `binvert_spec`): `dc_bdiv_qr_n_spec` without hypothesis on the
+    base case, for every n ≥ 2, every DC_BDIV_QR_THRESHOLD ≥ 2, every recursion depth.  (What stays assumed is that the limb
+    loop of mpn_sb_bdiv_qr returns that unique triple: tied by op `bi_dc_bdiv_qr_n` on sizes below the threshold.) -/
+theorem dc_bdiv_qr_n_unconditional (thr : Nat) (hthr : 2 ≤ thr) (f N D n : Nat) (hn : 2 ≤ n) (hN : N < B ^ (2 * n))
+    (hD : D < B ^ n) (hodd : D % 2 = 1) :
+    (dcBdivQrN thr sbBdivQrVal f N D n).1 < B ^ n ∧ (dcBdivQrN thr sbBdivQrVal f N D n).2.1 < B ^ n ∧
+    (dcBdivQrN thr sbBdivQrVal f N D n).2.2 ≤ 1 ∧
+    N + (dcBdivQrN thr sbBdivQrVal f N D n).2.2 * B ^ (2 * n) =
+      (dcBdivQrN thr sbBdivQrVal f N D n).1 * D + (dcBdivQrN thr sbBdivQrVal f N D n).2.1 * B ^ n ∧
+    ((dcBdivQrN thr sbBdivQrVal f N D n).1 * D) % B ^ n = N % B ^ n :=
+  dc_bdiv_qr_n_spec thr hthr sbBdivQrVal sbSpec_val f N D n hn hN hD hodd
+
+example : dcBdivQrN 3 sbBdivQrVal 7 (B ^ 14 - 5) 3 7 = sbBdivQrVal (B ^ 14 - 5) 3 7 := by decide +kernel
+
+/-- **mpn_dc_bdiv_q, PARTIAL**: what is proved of `dc_bdiv_q_spec` (Q·D ≡ N (mod B^nn) for mpn_dc_bdiv_q) is the block
+    division it is built from for nn > dn, mpn_dc_bdiv_qr_n (`dc_bdiv_qr_n_spec`), with the contract `SbSpec` of
+    mpn_sb_bdiv_qr as hypothesis.  MISSING for the full
+    `dc_bdiv_q_spec` and for removing the contract from `mpn_binvert_correct` (whose base case calls mpn_dc_bdiv_q with
+    nn = dn, i.e. goes straight to mpn_dc_bdiv_q_n): (1) mpn_dc_bdiv_q_n (dc_bdiv_q_n.c:34-90) — MPIR's version is not
+    GMP's mullo recursion but a mulmid recursion (`mpn_mulmid_n (scratch, dp + 1, qp + (n & 1), t)`, an extra
+    `mpn_addmul_1` row for odd n) that carries the two overflow limbs `wp[0..2)` of mpn_sb_bdiv_q through `ADDC_LIMB` /
+    `MPN_INCR_U`; its invariant is about the truncated product Σ_{i+j<n} d_i·q_j·B^(i+j) = N + W·B^n, a statement on limb
+    indices, not on values; (2) the block loop of mpn_dc_bdiv_q for nn > dn (dc_bdiv_q.c:57-95); (3) the limb loop of
+    mpn_sb_bdiv_qr (contract `SbSpec`).  The run covers all three: op `bi_dc_bdiv_q` compares every limb of the real
+    mpn_dc_bdiv_q with the unique quotient. -/
+theorem dc_bdiv_q_spec_partial (thr : Nat) (hthr : 2 ≤ thr) (sb : Nat → Nat → Nat → Nat × Nat × Nat) (hsb : SbSpec sb)
+    (N D n : Nat) (hn : 2 ≤ n) (hN : N < B ^ (2 * n)) (hD : D < B ^ n) (hodd : D % 2 = 1) :
+    ((dcBdivQrN thr sb n N D n).1 * D) % B ^ n = N % B ^ n ∧ (dcBdivQrN thr sb n N D n).1 < B ^ n :=
+  let h := dc_bdiv_qr_n_spec thr hthr sb hsb n N D n hn hN hD hodd
+  ⟨h.2.2.2.2, h.1⟩
+
+-- non-vacuity: n = 5 with threshold 2 (two levels of recursion, odd split), N = B^10 − 1 and N = 1 (borrow returned), D = B^5 − 1
+example : dcBdivQrN 2 sbBdivQrVal 5 (B ^ 10 - 1) (B ^ 5 - 1) 5 = (1, B ^ 5 - 1, 0) ∧
+    dcBdivQrN 2 sbBdivQrVal 5 1 (B ^ 5 - 1) 5 = (B ^ 5 - 1, 2, 1) := by decide +kernel
 
 end Mpir.Binvert
